@@ -24,7 +24,7 @@ func init() {
 			ruleX5(c) // closing the mux from the write path's error branch cannot deadlock on a lock the writer holds
 			ruleX1(c) // a connection lost mid-frame closes the whole mux, which is what wakes the ttRPC client and fires the close notification Start waits for
 		},
-		explanation: "Time bounds and the behaviour of ttRPC on a cut connection are not decided.  Decided is the structure that termination and restartability rest on: every channel receive executed while the stub lock is held is a select with a second case that the end of the session makes ready (the close notification's channel) — the one bare receive, close() waiting for the server goroutine, is preceded on every path by closing the server; the close notification closes its channel before doing anything that may need the stub lock (Start holds it while waiting for that channel); the close notification registered with the ttRPC client carries a value created in that very Start activation and the teardown it triggers is control-dependent on comparing it with the stub's current session; every session resource set up by Start/connect, including the conditionally reused connection, is reset by a deferred cleanup on every failing exit; close() is only ever called with the stub lock held, resets started and conn, and the per-activation done channel is closed once, after the server result was sent to a channel of capacity >= 1; Wait only waits when started and Start refuses a started stub; Configure reports its result exactly once. A read failure in the multiplexer's reader closes the whole mux (not only the trunk), which is what wakes the ttRPC client and fires the close notification. No multiplexer lock is acquired while already held (the failing write path closes the mux with the write lock held).",
+		explanation: "Time bounds and the behaviour of ttRPC on a cut connection are not decided.  Decided is the structure that termination and restartability rest on: every channel receive executed while the stub lock is held is a select with a second case that the end of the session makes ready (the close notification's channel) — the one bare receive, close() waiting for the server goroutine, is preceded on every path by closing the server; the close notification closes its channel before doing anything that may need the stub lock (Start holds it while waiting for that channel); the close notification registered with the ttRPC client carries a value created in that very Start activation and the teardown it triggers is control-dependent on comparing it with the stub's current session; every session resource set up by Start/connect, including the conditionally reused connection, is reset by a deferred cleanup on every failing exit; close() is only ever called with the stub lock held, resets started and conn, and the per-activation done channel is closed once, after the server result was sent to a channel of capacity >= 1; Wait only waits when started and Start refuses a started stub; Configure reports its result exactly once. A read failure in the multiplexer's reader closes the whole mux (not only the trunk), which is what wakes the ttRPC client and fires the close notification. No multiplexer lock is acquired while already held (the failing write path closes the mux with the write lock held). The user's close callback is called for every ended session, stale notification or not.",
 		notDecided: []string{
 			"time bounds",
 			"what ttRPC does on a cut at a given byte",
@@ -281,6 +281,56 @@ func ruleZ2(c *Ctx) {
 		}
 	}
 	c.ok("Z2", "Start/onclose", mc.Pos(), bad == "", "the close notification only tears down the session it belongs to", bad)
+	// every session's end is reported to the user: the user's onClose callback is called whenever it is set — the
+	// staleness test decides about the teardown only, not about the report (a notification that lost the race for
+	// the stub lock against the next Start is stale by then, but its session did end)
+	for _, g := range m.methodsOf(pkgStub, "stub") {
+		for _, ci := range calls(g) {
+			call, ok := ci.(*ssa.Call)
+			if !ok || call.Call.IsInvoke() || m.callee(call.Common()) != nil {
+				continue
+			}
+			a := m.ap(call.Call.Value)
+			if a.PathString() != "onClose" || !recvIsStub(m, a.Root) {
+				continue
+			}
+			badC := ""
+			for _, cd := range controls(call.Block()) {
+				n := normCond(cd)
+				bo, ok := n.V.(*ssa.BinOp)
+				if !ok {
+					continue
+				}
+				x, y := m.ap(bo.X), m.ap(bo.Y)
+				if x.PathString() == "onClose" || y.PathString() == "onClose" {
+					continue // the callback is set
+				}
+				badC = "the call of the user's onClose is controlled by " + n.V.String() + " (at " + c.pos(cd.If.Pos()) + ")"
+			}
+			// an early return before the call does the same without showing up as a control of its block
+			if badC == "" && len(g.Blocks) > 0 {
+				for _, r := range returnsOf(g) {
+					if domInstr(call, r) || r.Block() == call.Block() {
+						continue
+					}
+					for _, cd := range controls(r.Block()) {
+						n := normCond(cd)
+						if bo, ok := n.V.(*ssa.BinOp); ok {
+							x, y := m.ap(bo.X), m.ap(bo.Y)
+							if x.PathString() == "onClose" || y.PathString() == "onClose" {
+								continue
+							}
+							if !canReach(r.Block(), call.Block()) && canReach(cd.If.Block(), call.Block()) && cd.If.Block().Dominates(call.Block()) {
+								badC = "a return at " + c.pos(r.Pos()) + " taken under " + n.V.String() + " skips the user's onClose"
+							}
+						}
+					}
+				}
+			}
+			c.ok("Z2", funcKey(g)+"/reports-every-end", call.Pos(), badC == "", "the user's close callback is called for every ended session, stale notification or not",
+				badC+": when the notification of a session that was stopped loses the race for the stub lock against the next Start it is classed as stale, and the end of that session is then never reported")
+		}
+	}
 }
 
 // loadOf returns a value representing the content of cell v (a pseudo load for valueSources).
